@@ -1540,14 +1540,16 @@ func matchExactRegex(v string) ([]string, bool) {
 		return nil, false
 	}
 
+	// Only text anchors make the regex match whole values: in multi-line mode
+	// (?m) ^ and $ also match at line breaks inside the value.
 	start := re.Sub[0]
-	if !(start.Op == syntax.OpBeginLine || start.Op == syntax.OpBeginText) {
+	if start.Op != syntax.OpBeginText {
 		// Regex does not begin with ^
 		return nil, false
 	}
 
 	end := re.Sub[len(re.Sub)-1]
-	if !(end.Op == syntax.OpEndLine || end.Op == syntax.OpEndText) {
+	if end.Op != syntax.OpEndText {
 		// Regex does not end with $
 		return nil, false
 	}
